@@ -15,7 +15,8 @@ order; ephemeral parents are skipped by the code and never touched) and
   c18_missing_fresh               Missing of a fresh outline = the omitted hashes, block order
   c18_missing_exact               Complete reports exactly the still-missing hashes, block order
   c18_complete_restores           with a pool containing the omitted ones (superset, any order): exactly the block
-  c18_outline_codec_roundtrip_partial   the kinds-vector reassembly of the outline codec
+  c18_outline_codec_roundtrip     the outline codec round-trips on BYTES for any lawful payload codecs
+  c18_outline_codec_roundtrip_c11 … instantiated with C11's codecs and the multiproof codec
 
 No hash assumption is needed for the multiproof theorems (they are equalities with the
 naive forest). The outline theorems assume `EnvOK`: the transaction leaf hash is injective
@@ -27,6 +28,8 @@ import SiaProofs.Lemmas.Outline
 import SiaProofs.Lemmas.TermHash
 import SiaProofs.Lemmas.TxTraverse
 import SiaProofs.Props.C11Irregular
+import SiaProofs.Lemmas.OutlineBytes
+import SiaProofs.Lemmas.TxCanon
 namespace C18
 open Sia.ElemAcc Sia.Multiproof Sia.Outline
 
@@ -102,24 +105,34 @@ theorem c18_codec_roundtrip (eh : Nat → Sia.Codec.Val → Hash32) (heh : ∀ k
 /-- the schema of `[]V2Transaction` in C11's codec model -/
 def txnsSch : Sia.Codec.Sch := .slice C11.v2txn
 
-/-- … with C11's V2Transaction codec (`c11_roundtrip` over the environment of irregular
-    codecs) as the payload codec, for any decoder slack `k`.
-    What remains outside: the environment `Irregular.env` has no `Types.SpendPolicy` codec
-    (C14 models policies separately), so canonical values here are transactions whose
-    inputs the codec model can express — for transactions with siacoin/siafund inputs the
-    instance needs a lawful policy codec plugged into the environment (the generic theorem
-    above already covers it: it only asks for `hrt`). -/
+/-- … with C11's codec as the payload codec, over ANY environment `E` of irregular codecs
+    that is lawful (`EnvOK`) and contains the modelled V2Transaction / resolution codecs
+    (`TxnEnv`), for any decoder slack `k`. The only hypotheses left are the codec-side one —
+    `t` is a canonical value of `[]V2Transaction` — and the statement's own premise that the
+    non-ephemeral parents carry the paths of one forest: well-shapedness of the parents and
+    canonicity of the stripped set are DERIVED from canonicity of `t` (`Lemmas/TxCanon`).
+    An environment extended by further codecs (e.g. a spend-policy codec) qualifies as is. -/
+theorem c18_codec_roundtrip_env {E E2 E1 E0 : Sia.Codec.Env} (hE : Sia.Codec.EnvOK E) (henv : TxnEnv E E2 E1 E0) (k : Nat)
+    (eh : Nat → Sia.Codec.Val → Hash32) (heh : ∀ k el p, eh k (setProof el p) = eh k el)
+    (ls : List Hash32) (t : Sia.Codec.Val) (hc : Sia.Codec.Canon E txnsSch t)
+    (hv : ∀ l ∈ (valOps eh (Sia.Codec.enc E txnsSch) (Sia.Codec.dec E k txnsSch)).leaves t, Valid ls l)
+    (hn : ls.length < 2 ^ 64) (tail : Sia.Codec.Bytes) :
+    decodeBytes (valOps eh (Sia.Codec.enc E txnsSch) (Sia.Codec.dec E k txnsSch))
+      (encodeBytes (valOps eh (Sia.Codec.enc E txnsSch) (Sia.Codec.dec E k txnsSch)) t ++ tail) = .ok (t, tail) := by
+  have hwf : txnsSch.wf E = true := by
+    simp [txnsSch, C11.v2txn, Sia.Codec.Sch.wf, Sia.Codec.Sch.minLen, henv.txn, Sia.Codec.Irregular.v2TxnCodec, Sia.Codec.Codec.bitmap]
+  exact c18_codec_roundtrip eh heh _ _ (Sia.Codec.Canon E txnsSch)
+    (fun v rest hc => C11.c11_roundtrip hE k txnsSch hwf v rest hc) ls t
+    (goodTxns_of_canon henv hc) hv hn (strip_canon henv eh _ _ hc) tail
+
+/-- the instance for the codec model's current environment -/
 theorem c18_codec_roundtrip_c11 (k : Nat) (eh : Nat → Sia.Codec.Val → Hash32) (heh : ∀ k el p, eh k (setProof el p) = eh k el)
-    (ls : List Hash32) (t : Sia.Codec.Val) (hgood : GoodTxns t)
+    (ls : List Hash32) (t : Sia.Codec.Val) (hc : Sia.Codec.Canon Sia.Codec.Irregular.env txnsSch t)
     (hv : ∀ l ∈ (valOps eh (Sia.Codec.enc Sia.Codec.Irregular.env txnsSch) (Sia.Codec.dec Sia.Codec.Irregular.env k txnsSch)).leaves t, Valid ls l)
-    (hn : ls.length < 2 ^ 64)
-    (hcanon : Sia.Codec.Canon Sia.Codec.Irregular.env txnsSch
-      ((valOps eh (Sia.Codec.enc Sia.Codec.Irregular.env txnsSch) (Sia.Codec.dec Sia.Codec.Irregular.env k txnsSch)).strip t))
-    (tail : Sia.Codec.Bytes) :
+    (hn : ls.length < 2 ^ 64) (tail : Sia.Codec.Bytes) :
     decodeBytes (valOps eh (Sia.Codec.enc Sia.Codec.Irregular.env txnsSch) (Sia.Codec.dec Sia.Codec.Irregular.env k txnsSch))
       (encodeBytes (valOps eh (Sia.Codec.enc Sia.Codec.Irregular.env txnsSch) (Sia.Codec.dec Sia.Codec.Irregular.env k txnsSch)) t ++ tail) = .ok (t, tail) :=
-  c18_codec_roundtrip eh heh _ _ (Sia.Codec.Canon Sia.Codec.Irregular.env txnsSch)
-    (fun v rest hc => C11.c11_roundtrip C11.c11_env_ok k txnsSch rfl v rest hc) ls t hgood hv hn hcanon tail
+  c18_codec_roundtrip_env C11.c11_env_ok irregular_txnEnv k eh heh ls t hc hv hn tail
 
 end
 
@@ -221,40 +234,132 @@ theorem c18_complete_restores (ok : EnvOK env) (b : Block Tx1 Tx2 H Addr) (hc : 
   · rw [c3]
     simp [hp1, hp2]
 
-/-- Full statement (design): the outline codec round-trips on bytes. Proved here for the
-    part that is specific to the outline: splitting the transactions into present v1 /
-    present v2 / missing hashes plus the kinds vector, and reassembling them, restores the
-    transaction list of every outline whose present entries carry their own hash (true of
-    `OutlineBlock` outlines). Gap: the byte codecs of the three payload lists (C11, and
-    `c18_codec_roundtrip_partial` for the multiproof set). -/
-theorem c18_outline_codec_roundtrip_partial (txs : List (OTx Tx1 Tx2 H))
-    (hwf : ∀ t ∈ txs, (∀ x, t.txn = some x → t.hash = env.leaf1 x ∧ t.v2txn = none) ∧
-      (∀ x, t.v2txn = some x → t.hash = env.leaf2 x)) (bo : BlockOutline Tx1 Tx2 H Addr)
-    (hbo : bo.transactions = txs) :
-    decodeShape env (encodeShape bo).1 (encodeShape bo).2.1 (encodeShape bo).2.2.1 (encodeShape bo).2.2.2 = some txs := by
-  subst hbo
-  cases bo with
-  | mk height parentID nonce timestamp minerAddress transactions =>
-    simp only [encodeShape]
-    induction transactions with
-    | nil => simp [decodeShape]
-    | cons t rest ih =>
-      have hrest := ih (fun x hx => hwf x (List.mem_cons_of_mem _ hx))
-      obtain ⟨w1, w2⟩ := hwf t (by simp)
-      rcases t with ⟨h, t1, t2⟩
-      cases t1 with
-      | some x =>
-        obtain ⟨e1, e2⟩ := w1 x rfl
-        simp only at e1 e2
-        subst e2
-        simpa [decodeShape, e1] using hrest
-      | none =>
-        cases t2 with
-        | some y =>
-          have e1 := w2 y rfl
-          simp only at e1
-          simpa [decodeShape, e1] using hrest
-        | none => simpa [decodeShape] using hrest
+/-- **The outline codec round-trips on bytes** (`(*V2BlockOutline).encodeTo/decodeFrom`,
+    gateway/encoding.go): header fields, the present v1 transactions (`EncodeSlice`), the
+    present v2 transactions as ONE multiproof set, the hashes of the missing ones, one kind
+    byte per transaction — for ANY three payload codecs that round-trip on the values
+    `P1/P2/PH` describe. The outline must be one whose present entries carry the hash of
+    their transaction (`EntriesWF`: true of `OutlineBlock` outlines and of decoded ones). -/
+theorem c18_outline_codec_roundtrip {Tx1 Tx2 : Type} (env : Env Tx1 Tx2 Hash32 Hash32) (C : OutlineCodecs Tx1 Tx2)
+    (P1 : List Tx1 → Prop) (P2 : List Tx2 → Prop) (PH : List Hash32 → Prop)
+    (l1 : C.v1.Law P1) (l2 : C.v2.Law P2) (lH : C.hs.Law PH)
+    (bo : BOutline Tx1 Tx2) (hwf : EntriesWF env bo.transactions)
+    (hh : bo.height < Sia.Codec.W64) (hnn : bo.nonce < Sia.Codec.W64) (hts : bo.timestamp < Sia.Codec.W64)
+    (h1 : P1 (encodeShape bo).1) (h2 : P2 (encodeShape bo).2.1) (h3 : PH (encodeShape bo).2.2.1) (tail : Sia.Codec.Bytes) :
+    decodeOutline env C (encodeOutline C bo ++ tail) = .ok (bo, tail) :=
+  outline_bytes_roundtrip env C P1 P2 PH l1 l2 lH bo hwf hh hnn hts h1 h2 h3 tail
+
+/-- the outline of a block made by `OutlineBlock` satisfies `EntriesWF` -/
+theorem c18_outlineBlock_entries_wf {Tx1 Tx2 : Type} (env : Env Tx1 Tx2 Hash32 Hash32)
+    (b : Block Tx1 Tx2 Hash32 Hash32) (om1 : List Tx1) (om2 : List Tx2) :
+    EntriesWF env (outlineBlock env b om1 om2).transactions := by
+  intro t ht
+  simp only [outlineBlock, BlockOutline.removeTransactions, List.mem_map, List.mem_append] at ht
+  obtain ⟨t0, ht0, rfl⟩ := ht
+  rcases ht0 with ⟨x, _, rfl⟩ | ⟨x, _, rfl⟩ <;> (split <;> constructor <;> intro y hy <;> simp_all)
+
+end
+
+/-! ### the outline codec with C11's payload codecs -/
+
+section
+open Sia.Codec
+
+/-- `EncodeSlice` / `DecodeSlice` of a slice whose elements have schema `s`, on lists of values -/
+def sliceCodec (E : Sia.Codec.Env) (k : Nat) (s : Sch) : BCodec (List Val) where
+  enc := fun l => enc E (.slice s) (.list l)
+  dec := fun bs => match dec E k (.slice s) bs with
+    | .ok (.list l, r) => .ok (l, r)
+    | .ok _ => .error .invalid
+    | .error e => .error e
+
+theorem sliceCodec_law {E : Sia.Codec.Env} (hE : EnvOK E) (k : Nat) (s : Sch) (hwf : (Sch.slice s).wf E = true) :
+    (sliceCodec E k s).Law (fun l => Canon E (.slice s) (.list l)) := by
+  intro l rest hc
+  simp only [sliceCodec, C11.c11_roundtrip hE k (.slice s) hwf (.list l) rest hc]
+
+/-- `EncodeSlice` / `DecodeSlice` of `[]types.Hash256` -/
+def hashCodec (E : Sia.Codec.Env) (k : Nat) : BCodec (List Hash32) where
+  enc := fun hs => enc E (.slice (.fixed 32)) (.list (hs.map fun h => .bytes h.val))
+  dec := fun bs => match dec E k (.slice (.fixed 32)) bs with
+    | .ok (.list vs, r) => if (vs.filterMap hash32Of).length = vs.length then .ok (vs.filterMap hash32Of, r) else .error .invalid
+    | .ok _ => .error .invalid
+    | .error e => .error e
+
+theorem filterMap_hash32Of (hs : List Hash32) : (hs.map fun h => Val.bytes h.val).filterMap hash32Of = hs := by
+  induction hs with
+  | nil => rfl
+  | cons a t ih => simp only [List.map_cons, List.filterMap_cons, hash32Of_bytes, ih]
+
+theorem hashCodec_law {E : Sia.Codec.Env} (hE : EnvOK E) (k : Nat) :
+    (hashCodec E k).Law (fun hs => hs.length < W64) := by
+  intro hs rest hlen
+  have hc : Canon E (.slice (.fixed 32)) (.list (hs.map fun h => .bytes h.val)) := by
+    simp only [Canon, canon, List.length_map, hlen, decide_true, Bool.true_and, List.all_eq_true, List.mem_map]
+    rintro v ⟨h, _, rfl⟩
+    simp [Atom.codec, isBytes, h.property]
+  simp only [hashCodec, C11.c11_roundtrip hE k (.slice (.fixed 32)) (by simp [Sch.wf, Sch.minLen, Atom.codec]) _ rest hc, filterMap_hash32Of,
+    List.length_map, if_true]
+
+variable [Hasher Hash32]
+
+/-- `V2TransactionsMultiproof` on lists of transaction values -/
+def mpCodec (ops : TxSetOps Val) : BCodec (List Val) where
+  enc := fun l => encodeBytes ops (.list l)
+  dec := fun bs => match decodeBytes ops bs with
+    | .ok (.list l, r) => .ok (l, r)
+    | .ok _ => .error .invalid
+    | .error e => .error e
+
+/-- the side conditions of `c18_codec_roundtrip` for a list of transaction values -/
+def MpOK (eh : Nat → Val → Hash32) (encP : Val → Bytes) (decP : Bytes → Except DecErr (Val × Bytes)) (CanonP : Val → Prop)
+    (l : List Val) : Prop :=
+  GoodTxns (.list l) ∧ (∃ ls : List Hash32, ls.length < 2 ^ 64 ∧ ∀ x ∈ (valOps eh encP decP).leaves (.list l), Valid ls x) ∧
+  CanonP ((valOps eh encP decP).strip (.list l))
+
+theorem mpCodec_law (eh : Nat → Val → Hash32) (heh : ∀ k el p, eh k (setProof el p) = eh k el)
+    (encP : Val → Bytes) (decP : Bytes → Except DecErr (Val × Bytes)) (CanonP : Val → Prop)
+    (hrt : ∀ t rest, CanonP t → decP (encP t ++ rest) = .ok (t, rest)) :
+    (mpCodec (valOps eh encP decP)).Law (MpOK eh encP decP CanonP) := by
+  rintro l rest ⟨hg, ⟨ls, hn, hv⟩, hc⟩
+  simp only [mpCodec, c18_codec_roundtrip eh heh encP decP CanonP hrt ls (.list l) hg hv hn hc rest]
+
+/-- the side conditions for the v2 transactions of an outline, codec side only: a canonical
+    value whose non-ephemeral parents carry the paths of one forest -/
+def MpCanon (E : Sia.Codec.Env) (k : Nat) (eh : Nat → Val → Hash32) (l : List Val) : Prop :=
+  Canon E txnsSch (.list l) ∧
+  ∃ ls : List Hash32, ls.length < 2 ^ 64 ∧ ∀ x ∈ (valOps eh (enc E txnsSch) (dec E k txnsSch)).leaves (.list l), Valid ls x
+
+theorem mpCodec_law_env {E E2 E1 E0 : Sia.Codec.Env} (hE : EnvOK E) (henv : TxnEnv E E2 E1 E0) (k : Nat)
+    (eh : Nat → Val → Hash32) (heh : ∀ k el p, eh k (setProof el p) = eh k el) :
+    (mpCodec (valOps eh (enc E txnsSch) (dec E k txnsSch))).Law (MpCanon E k eh) := by
+  rintro l rest ⟨hc, ls, hn, hv⟩
+  simp only [mpCodec, c18_codec_roundtrip_env hE henv k eh heh ls (.list l) hc hv hn rest]
+
+/-- **The outline codec round-trips on bytes, with C11's codecs**, over any lawful
+    environment containing the modelled transaction codecs: v1 transactions and hashes
+    through `c11_roundtrip` for their slice schemas (`txn1` = the generated schema of
+    `types.Transaction`), v2 transactions through `c18_codec_roundtrip_env`. Hypotheses:
+    the payloads are canonical values (codec side), the v2 parents carry the paths of one
+    forest (the property's premise), the header numbers are uint64. -/
+theorem c18_outline_codec_roundtrip_c11 {E E2 E1 E0 : Sia.Codec.Env} (hE : EnvOK E) (henv : TxnEnv E E2 E1 E0)
+    (k : Nat) (txn1 : Sch) (hwf1 : (Sch.slice txn1).wf E = true)
+    (env : Sia.Outline.Env Val Val Hash32 Hash32)
+    (eh : Nat → Val → Hash32) (heh : ∀ k el p, eh k (setProof el p) = eh k el)
+    (bo : BOutline Val Val) (hwf : EntriesWF env bo.transactions)
+    (hh : bo.height < W64) (hnn : bo.nonce < W64) (hts : bo.timestamp < W64)
+    (h1 : Canon E (.slice txn1) (.list (encodeShape bo).1))
+    (h2 : MpCanon E k eh (encodeShape bo).2.1)
+    (hlen : (encodeShape bo).2.2.1.length < W64) (tail : Bytes) :
+    let C : OutlineCodecs Val Val :=
+      { v1 := sliceCodec E k txn1,
+        v2 := mpCodec (valOps eh (enc E txnsSch) (dec E k txnsSch)),
+        hs := hashCodec E k }
+    decodeOutline env C (encodeOutline C bo ++ tail) = .ok (bo, tail) := by
+  intro C
+  exact c18_outline_codec_roundtrip env C _ _ _
+    (sliceCodec_law hE k txn1 hwf1) (mpCodec_law_env hE henv k eh heh) (hashCodec_law hE k)
+    bo hwf hh hnn hts h1 h2 hlen tail
 
 end
 
